@@ -108,7 +108,11 @@ Tags(r) ==
                                    B == [u \in M |-> ChannelBounds(r, u.h, u.pos, u.lo, u.hi)]
                                    up == CHOOSE x \in {B[u][2] : u \in M} : \A y \in {B[u][2] : u \in M} : x <= y
                                    dn == CHOOSE x \in {B[u][1] : u \in M} : \A y \in {B[u][1] : u \in M} : x >= y
-                               IN  up - s.pos >= Cardinality(M) * r.d + r.d /\ s.pos - dn >= Cardinality(M) * r.d + r.d
+                                   need == Cardinality(M) * r.d + r.d
+                               IN  \/ up - s.pos >= need /\ s.pos - dn >= need
+                                   \* or the stretch hugs an immovable thing on one side (no room at all there), so that the other side is the only way
+                                   \/ s.pos - dn <= TOL /\ up - s.pos >= need
+                                   \/ up - s.pos <= TOL /\ s.pos - dn >= need
                   wideF == {p \in onFixed : WideF(p)}
               IN  IF wide = {} /\ wideF # {}
                   THEN (IF \A p \in wideF : EndOnOther(p[1].c, p[2].c) \/ EndOnOther(p[2].c, p[1].c)
